@@ -232,6 +232,99 @@ def cleanup_rule(chk):
              "(K1-cleanup, K1-status) and C18 (K1-funnel, K5-funnel) checks")
 
 
+def _second_pointer_kind(f, h, body, a, b2):
+    """(True, text) if comparing the two loop-carried pointers detects every cycle: one of them follows the chain by
+    itself (tortoise and hare), or it is moved up to the other one at intervals that grow (Brent).  (False, text) if it
+    is only moved up at a fixed interval: a cycle longer than the interval is never noticed."""
+    def header_phi(v):
+        v = strip_casts(v)
+        seen = set()
+        work = [v]
+        while work:
+            x = work.pop()
+            if id(x) in seen:
+                continue
+            seen.add(id(x))
+            if x.is_inst and x.op == "phi" and x.bb is h:
+                return x
+            if x.is_inst and x.op in ("phi", "select", "bitcast"):
+                work += [o for o in x.ops if o.is_inst]
+        # the value computed in this round that becomes the header phi of the next round
+        for exact in (True, False):
+            for ph in h.insts:
+                if ph.op != "phi":
+                    break
+                for val, pred in zip(ph.ops, ph.x["inc"]):
+                    if pred not in body:
+                        continue
+                    if (exact and strip_casts(val) is v) or \
+                            (not exact and any(y is v for y in backward_slice(val, phi_control=False, limit=100))):
+                        return ph
+        return None
+    pa, pb = header_phi(a), header_phi(b2)
+    if pa is None or pb is None or pa is pb:
+        return (True, "two advancing pointers are compared (cycle detection)")
+    verdicts = []
+    for (p, other) in ((pa, pb), (pb, pa)):
+        own_step = teleport = False
+        tele_preds = []
+        for val, pred in zip(p.ops, p.x["inc"]):
+            if pred not in body:
+                continue
+            # leaves the value can come from, through merges
+            leaves, work, seen = [], [(val, pred)], set()
+            while work:
+                x, src = work.pop()
+                x = strip_casts(x)
+                if id(x) in seen:
+                    continue
+                seen.add(id(x))
+                if x.is_inst and x.op == "phi" and x.bb is not h:
+                    work += [(o, q) for o, q in zip(x.ops, x.x["inc"])]
+                elif x.is_inst and x.op == "select":
+                    work += [(x.ops[1], src), (x.ops[2], src)]
+                else:
+                    leaves.append((x, src))
+            for (x, src) in leaves:
+                if x is p:
+                    continue
+                sl = list(backward_slice(x, phi_control=False, limit=200))
+                if any(y is p for y in sl) and any(y.is_inst and y.op in ("call", "load") for y in sl):
+                    own_step = True
+                elif x is other or any(y is other for y in sl):
+                    teleport = True
+                    tele_preds.append(src)
+        if own_step:
+            verdicts.append((True, "a second pointer follows the chain at its own pace and is compared with the first (tortoise and hare)"))
+        elif teleport:
+            growing = False
+            for src in tele_preds:
+                for (cond, outcome, br) in f.guards_at(src):
+                    if cond.is_inst and cond.op == "icmp" and cond.pred in ("eq", "uge", "ugt", "ule", "ult"):
+                        for o in cond.ops:
+                            o = strip_casts(o)
+                            while o.is_inst and o.op in ("zext", "sext", "trunc"):
+                                o = o.ops[0]
+                            if o.is_inst and o.op == "phi" and o.bb is h:
+                                for v2, p2 in zip(o.ops, o.x["inc"]):
+                                    if p2 in body and any(y.is_inst and y.op in ("shl", "mul") or (y.is_inst and y.op == "add" and
+                                                          any(z is o for z in y.ops) and not any(z.is_const for z in y.ops))
+                                                          for y in backward_slice(v2, phi_control=False, limit=100)):
+                                        growing = True
+            if growing:
+                verdicts.append((True, "the second pointer is moved up at growing intervals and compared with the first (Brent)"))
+            else:
+                verdicts.append((False, "the loop compares the current node with a check point that is only moved up every fixed "
+                                 "number of hops: a cycle longer than that interval never contains the check point long enough "
+                                 "to be noticed, the loop does not end"))
+    bad = [v for v in verdicts if not v[0]]
+    if bad:
+        return bad[0]
+    if verdicts:
+        return verdicts[-1]
+    return (True, "two advancing pointers are compared (cycle detection)")
+
+
 def chase_rule(chk, prog):
     """K1-chase: a loop that follows links between tree nodes named by the input (hard link -> target -> ...) ends on every
     input: besides 'the chain ended' and 'back at the start' it has an exit that fires on any cycle -- a comparison of two
@@ -263,6 +356,7 @@ def chase_rule(chk, prog):
             chk.analysed(f)
             inst = "%s:loop@%d" % (f.name, h.term.line or 0)
             ok = None
+            weak = None
             bodyvals = set()
             for b in body:
                 for i in b.insts:
@@ -277,14 +371,18 @@ def chase_rule(chk, prog):
                         if x.is_inst and x.op == "icmp":
                             a, b2 = x.ops
                             if getattr(a, "ty", "").endswith("*") and varying(a) and varying(b2) and strip_casts(a) is not strip_casts(b2):
-                                ok = "two advancing pointers are compared (cycle detection)"
+                                why = _second_pointer_kind(f, h, body, a, b2)
+                                if why[0]:
+                                    ok = why[1]
+                                else:
+                                    weak = why[1]
                             if not getattr(a, "ty", "").endswith("*") and x.pred in ("ult", "ugt", "uge", "ule", "slt", "sgt") and \
                                     any(varying(o) for o in x.ops) and any(i.op == "phi" and not i.ty.endswith("*") for i in h.insts):
                                 ok = ok or "a hop counter is compared with a bound"
             if ok:
                 chk.ok("K1-chase", inst, h.term, ok)
             else:
-                chk.violation("K1-chase", inst, h.term, "the loop follows links named by the input and stops only when the chain ends or "
+                chk.violation("K1-chase", inst, h.term, weak or "the loop follows links named by the input and stops only when the chain ends or "
                               "returns to its starting node: a cycle that does not contain the start (b -> c, c -> b, a -> b) never ends")
     return n
 
@@ -306,6 +404,8 @@ def run(chk):
     pax_index_rule(chk, prog)
     validation_rule(chk, prog)
     run_k6(chk, prog, files, EXCEPTIONS, "K6")
+    from ..k6idx import run_k6idx
+    run_k6idx(chk, prog, "K6-index", files)          # out[count++] into a caller's buffer: the counter is tested first
     mask_rule(chk, prog)
     from ..dangling import run_dangling
     run_dangling(chk, prog, "K8-dangling",
@@ -324,7 +424,7 @@ def run(chk):
     chk.floor("K5-optnull", 6)
     controls(chk)
     chk.floor("K6-limit", 4)
-    chk.floor("K6-index", 1)
+    chk.floor("K6-index", 6)
     chk.floor("K1-validate", 6)
     chk.floor("K6", 30)
     chk.floor("K9-mask", 1)
